@@ -17,7 +17,7 @@ TECHNIQUE = ("metamorphic twin-run (default caches vs minimal caches over the sa
 RULE = ("(i) One case = one twin history: regtest node, base chain 104..108 blocks whose coinbases pay 15 outputs each (P2WPKH, P2PKH, P2WSH, "
         "P2TR, third-party-malleable P2WSH, bare 1-of-2 multisig, bare '<100> CLTV DROP TRUE', bare '<10> CSV DROP TRUE', bare 'DUP <k1> "
         "CHECKSIGVERIFY <k2> CHECKSIG NOT'); a random non-empty subset of the dersig / cltv / csv / segwit(nulldummy) deployment heights moved "
-        "to base+2..base+9; two thirds of the cases without script-check worker threads (then TestBlockValidity and block connection "
+        "to base+2..base+27 (nulldummy: base+2..base+13); two thirds of the cases without script-check worker threads (then TestBlockValidity and block connection "
         "store into / read from the caches inline). 45..70 intents, each a short scripted sequence: flag-sensitive transaction (non-DER "
         "signature, CLTV / CSV output spent with unsatisfied lock, non-null multisig dummy: valid below the deployment height, invalid from "
         "it on) test-validated and mined below the boundary and then above it, or above and then - after an InvalidateBlock reorg - below; "
@@ -49,8 +49,8 @@ def runs(tier, seed):
     if tier == "quick":
         return [Run("cachetwin", cases=30, timeout=3000, name="cachetwin"),
                 Run("cuckoo", cases=4000, params={"maxsize": 4000, "maxops": 1500}, timeout=1800, name="cuckoo")]
-    return [Run("cachetwin", cases=1000, timeout=16000, name="cachetwin"),
-            Run("cuckoo", cases=300000, params={"maxsize": 4000, "maxops": 1500}, timeout=3600, name="cuckoo")]
+    return [Run("cachetwin", cases=400, timeout=16000, name="cachetwin"),  # bounded to <= 15 min idle (~20 s CPU per twin history)
+            Run("cuckoo", cases=100000, params={"maxsize": 4000, "maxops": 1500}, timeout=3600, name="cuckoo")]
 
 
 def _outcome_ok(kind, exp, v):
